@@ -9,6 +9,8 @@
 EXTENDS ElfFile
 
 HasK(e, k) == k \in DOMAIN e
+\* index list of a recorded table projection (absent when the implementation reported no table)
+Idx(r) == IF "idx" \in DOMAIN r THEN r.idx ELSE <<>>
 
 \* ---- JSON shapes ---------------------------------------------------------------------
 TblJ(ty, class, little, b, idx) == [some |-> TRUE] @@ TblProj(ty, class, little, b, idx) @@ [idx |-> idx]
@@ -36,9 +38,9 @@ HdrTblJ(f, ty, class, little, t, idx) ==
 OpenDet(f, o, e, stream) ==
     [ehdr |-> EhdrJ(o.h),
      sh |-> IF o.sh = <<>> THEN (IF stream THEN [some |-> TRUE, n |-> W8(0), idx |-> <<>>, ents |-> <<>>] ELSE NoneJ)
-            ELSE HdrTblJ(f, "shdr", o.class, o.little, o.sh, e.res.sh.idx),
+            ELSE HdrTblJ(f, "shdr", o.class, o.little, o.sh, Idx(e.res.sh)),
      ph |-> IF o.ph = <<>> THEN (IF stream THEN [some |-> TRUE, n |-> W8(0), idx |-> <<>>, ents |-> <<>>] ELSE NoneJ)
-            ELSE HdrTblJ(f, "phdr", o.class, o.little, o.ph, e.res.ph.idx)]
+            ELSE HdrTblJ(f, "phdr", o.class, o.little, o.ph, Idx(e.res.ph))]
 
 \* ---- queries -----------------------------------------------------------------------------
 \* notes with positions relative to the file (slice parser) or to the returned buffer (stream)
@@ -78,7 +80,7 @@ SvOne(f, a, t, q, stream) ==
                                ELSE [out |-> "ok", b |-> Bytes(a.def.str, r.names[j].s),
                                      s |-> ShiftR(r.names[j].s, t.def.str.start)]]]
 \* compare a recorded symbol-version answer with the computed one (error kinds are not compared)
-SvMatch(rec, exp) == rec.out = exp.out /\ (exp.out = "ok" => \A k \in DOMAIN exp : rec[k] = exp[k])
+SvMatch(rec, exp) == rec.out = exp.out /\ (exp.out = "ok" => \A k \in DOMAIN exp : k \in DOMAIN rec /\ rec[k] = exp[k])
 
 FindJ(r) == IF r.out = "ok" THEN [out |-> "ok", idx |-> r.idx, sym |-> r.sym] ELSE [out |-> r.out]
 FindMatch(rec, exp) == rec.out = exp.out /\ (exp.out = "ok" => rec.idx = exp.idx /\ rec.sym = exp.sym)
@@ -131,20 +133,20 @@ QDet(f, eb, e, stream) ==
       [] n = "segment_data_as_notes" -> NotesJ(f, eb, SegmentNotes(f, e.phdr), e.phdr["p_align"], stream)
       [] n \in {"symbol_table", "dynamic_symbol_table"} ->
             (LET t == SymTab(f, eb, IF n = "symbol_table" THEN SHT_SYMTAB ELSE SHT_DYNSYM)
-             IN [sym |-> TblJ("sym", eb.class, eb.little, FSub(f, t.sym.start, t.sym.len), e.res.sym.idx),
+             IN [sym |-> TblJ("sym", eb.class, eb.little, FSub(f, t.sym.start, t.sym.len), Idx(e.res.sym)),
                  str |-> StrJ(f, t.str, stream)])
       [] n = "dynamic" ->
             (LET d == Dynamic(f, eb, stream)
-             IN [tbl |-> TblJ("dyn", eb.class, eb.little, FSub(f, d.start, d.len), e.res.tbl.idx)])
+             IN [tbl |-> TblJ("dyn", eb.class, eb.little, FSub(f, d.start, d.len), Idx(e.res.tbl))])
       [] n = "symbol_version_table" -> [x \in {} |-> 0]          \* the embedded answers are compared by SvAll
       [] n = "find_common_data" ->
             (LET c == CommonData(f, eb)
-                 T(r, k) == IF r = <<>> THEN NoneJ ELSE TblJ("sym", eb.class, eb.little, FSub(f, r.start, r.len), e.res[k].idx)
+                 T(r, k) == IF r = <<>> THEN NoneJ ELSE TblJ("sym", eb.class, eb.little, FSub(f, r.start, r.len), Idx(e.res[k]))
                  S(r) == IF r = <<>> THEN NoneJ ELSE StrJ(f, r, FALSE)
              IN [symtab |-> T(c.symtab, "symtab"), symtab_strs |-> S(c.symtab_strs),
                  dynsyms |-> T(c.dynsyms, "dynsyms"), dynsyms_strs |-> S(c.dynsyms_strs),
                  dynamic |-> IF c.dynamic = <<>> THEN NoneJ
-                             ELSE TblJ("dyn", eb.class, eb.little, FSub(f, c.dynamic.start, c.dynamic.len), e.res.dynamic.idx)])
+                             ELSE TblJ("dyn", eb.class, eb.little, FSub(f, c.dynamic.start, c.dynamic.len), Idx(e.res.dynamic))])
 
 \* symbol_version_table: every embedded answer
 SvAll(f, eb, e, stream) ==
@@ -160,13 +162,15 @@ CommonHash(f, eb, e) ==
         st == IF have THEN FSub(f, c.dynsyms_strs.start, c.dynsyms_strs.len) ELSE <<>>
     IN /\ e.res.sysv.some = (c.sysv_hash # <<>>)
        /\ e.res.gnu.some = (c.gnu_hash # <<>>)
-       /\ c.gnu_hash # <<>> => e.res.gnu.hdr = GnuNew(eb.class, eb.little, FSub(f, c.gnu_hash.start, c.gnu_hash.len)).hdr
+       /\ c.gnu_hash # <<>> => "hdr" \in DOMAIN e.res.gnu /\ e.res.gnu.hdr = GnuNew(eb.class, eb.little, FSub(f, c.gnu_hash.start, c.gnu_hash.len)).hdr
        /\ (have /\ c.sysv_hash # <<>>) =>
+             /\ "finds" \in DOMAIN e.res.sysv
              /\ Len(e.res.sysv.finds) = Len(e.names)
              /\ \A j \in 1..Len(e.names) :
                   FindMatch(e.res.sysv.finds[j],
                             FindJ(SysvFind(eb.class, eb.little, FSub(f, c.sysv_hash.start, c.sysv_hash.len), sy, st, e.names[j])))
        /\ (have /\ c.gnu_hash # <<>>) =>
+             /\ "finds" \in DOMAIN e.res.gnu
              /\ Len(e.res.gnu.finds) = Len(e.names)
              /\ \A j \in 1..Len(e.names) :
                   FindMatch(e.res.gnu.finds[j],
@@ -243,14 +247,14 @@ QueryOk(f, eb, e, stream) ==
     IN /\ e.res.out = o
        /\ o = "err" => (QErrKind(f, eb, e, stream) = "any" \/ e.res.kind = QErrKind(f, eb, e, stream))
        /\ o = "ok" =>
-            /\ LET d == QDet(f, eb, e, stream) IN \A k \in DOMAIN d : e.res[k] = d[k]
+            /\ LET d == QDet(f, eb, e, stream) IN \A k \in DOMAIN d : k \in DOMAIN e.res /\ e.res[k] = d[k]
             /\ e.name = "symbol_version_table" => SvAll(f, eb, e, stream)
             /\ e.name = "find_common_data" => CommonHash(f, eb, e)
 
 OpenOk(f, e, stream) ==
     LET o == Open(f, e.es)
     IN IF o.ok THEN /\ e.res.out = "ok"
-                    /\ LET d == OpenDet(f, o, e, stream) IN \A k \in DOMAIN d : e.res[k] = d[k]
+                    /\ LET d == OpenDet(f, o, e, stream) IN \A k \in DOMAIN d : k \in DOMAIN e.res /\ e.res[k] = d[k]
        ELSE /\ e.res.out = "err"
             /\ f.len >= 16 => IdentResOk(e.es, FSub(f, 0, 16), [out |-> "err", kind |-> e.res.kind, payload |-> e.res.payload])
                               \/ Defects(e.es, FSub(f, 0, 16)) = {}
